@@ -284,3 +284,65 @@ func qInvalid(src []byte, k int) bool {
 //@ at return assert kept-emitted without invalid,prefix,length,offset,pending,frame: vForall(len(old(dst))+1, len(result0)-1-(n-i), func(p int) bool { return result0[p] == qByte(src, 0, flags.Get(jsonflags.EscapeForHTML), flags.Get(jsonflags.EscapeForJS), p-len(old(dst))-1) })
 //@ at return assert copied without invalid,prefix,length,offset,emitted,pending,frame: vForall(len(result0)-1-(n-i), len(result0)-1, func(p int) bool { return result0[p] == src[i+(p-(len(result0)-1-(n-i)))] })
 //@ at return assert pending-pos without invalid,prefix,length,offset,emitted,frame: vForall(i, n, func(k int) bool { return qByte(src, 0, flags.Get(jsonflags.EscapeForHTML), flags.Get(jsonflags.EscapeForJS), len(result0)-1-(n-i)-len(old(dst))-1+(k-i)) == src[k] })
+
+// ---------------------------------------------------------------- numbers
+
+// floatText(b, from): b[from:] was produced by AppendFloat (the ECMA-262
+// number-to-string rendering). The predicate is opaque: only AppendFloat's
+// contract establishes it, so a postcondition that demands it says "this text
+// was re-rendered, not copied".
+//
+//@ spec floatText opaque
+func floatText(b []byte, from int) bool { return true }
+
+//@ extern strconv.AppendFloat(dst []byte, f float64, fmt byte, prec, bitSize int) (result []byte)
+//@ trusted strconv: appends the shortest decimal rendering of f; at least one byte
+//@ modifies dst[len(dst):cap(dst)]
+//@ ensures sameOrFresh(result, dst)
+//@ ensures len(result) >= len(dst)+1 && (fmt == 'e' ==> len(result) >= len(dst)+5)
+//@ ensures vForall(0, len(dst), func(k int) bool { return result[k] == old(dst[k]) })
+
+//@ extern strconv.ParseFloat(s string, bitSize int) (f float64, err error)
+//@ trusted strconv: correctly rounded parsing (floats are opaque to the verifier)
+
+//@ extern math.Abs(x float64) (result float64)
+//@ trusted math
+
+//@ extern math.IsInf(f float64, sign int) (result bool)
+//@ trusted math
+
+//@ func AppendFloat
+//@ property C10 C13 C20
+//@ modifies dst[len(dst):cap(dst)]
+//@ ensures alias: sameOrFresh(result, dst)
+//@ ensures length: len(result) >= len(dst)
+//@ ensures prefix: vForall(0, len(dst), func(k int) bool { return result[k] == old(dst[k]) })
+//@ ensures-assumed produced: floatText(result, len(dst))
+
+// numIsFloat: the literal has a fraction or an exponent.
+//
+//@ spec numIsFloat
+func numIsFloat(src []byte, n int) bool {
+	return vExists(0, n, func(k int) bool { return src[k] == '.' || src[k] == 'e' || src[k] == 'E' })
+}
+
+// ReformatNumber copies the literal verbatim unless canonicalization is asked
+// for; then -0, floats (under CanonicalizeRawFloats) and integers of 16 or more
+// characters (under CanonicalizeRawInts; shorter ones are below 2^53 and already
+// canonical) are re-rendered by AppendFloat, never copied.
+//
+//@ func ReformatNumber
+//@ split
+//@ property C12 C13 C10 C20
+//@ requires flags != nil && distinctArrays(dst, src)
+//@ modifies dst[len(dst):cap(dst)]
+//@ ensures alias: sameOrFresh(result0, dst)
+//@ ensures prefix: vForall(0, len(dst), func(k int) bool { return result0[k] == old(dst[k]) })
+//@ ensures error: result2 != nil ==> sameSlice(result0, dst)
+//@ ensures range: 0 <= result1 && result1 <= len(src)
+//@ ensures verbatim: result2 == nil && !flags.Get(jsonflags.CanonicalizeNumbers) ==> len(result0) == len(dst)+result1 && vForall(0, result1, func(k int) bool { return result0[len(dst)+k] == src[k] })
+//@ ensures minus-zero: result2 == nil && flags.Get(jsonflags.CanonicalizeNumbers) && result1 == 2 && src[0] == '-' && src[1] == '0' ==> floatText(result0, len(dst))
+//@ ensures floats: result2 == nil && flags.Get(jsonflags.CanonicalizeNumbers) && flags.Get(jsonflags.CanonicalizeRawFloats) && numIsFloat(src, result1) ==> floatText(result0, len(dst))
+//@ ensures long-ints: result2 == nil && flags.Get(jsonflags.CanonicalizeNumbers) && flags.Get(jsonflags.CanonicalizeRawInts) && !numIsFloat(src, result1) && result1 >= 16 ==> floatText(result0, len(dst))
+//@ ensures short-ints: result2 == nil && flags.Get(jsonflags.CanonicalizeNumbers) && !numIsFloat(src, result1) && result1 < 16 && !(result1 == 2 && src[0] == '-' && src[1] == '0') ==> len(result0) == len(dst)+result1 && vForall(0, result1, func(k int) bool { return result0[len(dst)+k] == src[k] })
+//@ loop 0 invariant -1 <= rangeindex && rangeindex < n && !isFloat && vForall(0, rangeindex+1, func(k int) bool { return !(src[k] == '.' || src[k] == 'e' || src[k] == 'E') })
